@@ -1,11 +1,338 @@
-//! (not built yet)
-use serde_json::Value;
-use vcore::Run;
+//! C13 (end-to-end half) — unknown and GREASE elements never change the outcome of an exchange.
 
-pub fn run(run: &Run) {
-    run.inconclusive("check not built yet");
+use crate::common::*;
+use proptest::prelude::*;
+use refcodec::registry as reg;
+use serde::{Deserialize, Serialize};
+use serde_json::Value;
+use std::sync::Arc;
+use std::time::Duration;
+use vcore::{prop_search, Outcome, Run, Search};
+use wire::*;
+
+const RULE: &str = "end-to-end metamorphic: a valid exchange driven by the raw peer (control stream with SETTINGS, extended CONNECT request / response, an application stream echo, a final close capsule with generated code and reason) is run with generated insertions: GREASE and unknown frames (GOAWAY, MAX_PUSH_ID, CANCEL_PUSH, PRIORITY_UPDATE and random non-reserved types of every varint width; payloads that look like frames) on the control stream after SETTINGS; GREASE and unknown non-reserved frames before the request / response HEADERS and on the established session stream; unknown and GREASE setting identifiers inside SETTINGS; unknown capsule types before the close capsule; unidirectional streams of unknown and GREASE types with arbitrary content (also finished or reset). Oracle: exactly the outcome of the exchange without insertions — session established, application stream delivered, no CONNECTION_CLOSE caused by an insertion, and the termination value equals the capsule's code and reason. Non-trivial: >= 1 inserted element with a non-empty payload before a known element; distinct = distinct case";
+
+#[derive(Clone, Debug, Serialize, Deserialize)]
+pub enum Ins {
+    /// frame on the control stream after SETTINGS: (type selector, raw type, payload)
+    Control(u8, u64, Vec<u8>),
+    /// frame before the request (wt server) / response (wt client) HEADERS
+    BeforeHeaders(u64, Vec<u8>),
+    /// frame on the established session stream before the close capsule
+    Session(u64, Vec<u8>),
+    /// unknown capsule (type, value) before the close capsule
+    Capsule(u64, Vec<u8>),
+    /// extra setting (id, value)
+    Setting(u64, u64),
+    /// unidirectional stream of an unknown / GREASE type: (type, content, ending 0 open / 1 fin / 2 reset)
+    UniStream(u64, Vec<u8>, u8),
 }
 
-pub fn replay(_run: &Run, _doc: &Value) -> bool {
-    false
+#[derive(Clone, Debug, Serialize, Deserialize)]
+pub struct Case {
+    pub flavor: u8,
+    pub wt_is_server: bool,
+    pub ins: Vec<Ins>,
+    pub code: u32,
+    pub reason: String,
+}
+
+fn unknown_generic() -> impl Strategy<Value = u64> {
+    prop_oneof![
+        2 => proptest::sample::select(vec![0x0eu64, 0x0f, 0x10, 0x20, 0x22, 0x3f, 0x42, 0x4242, 0x1_0000, 0xfff_ffff, (1 << 32) + 7, (1u64 << 62) - 1]),
+        2 => (0x0eu64..(1u64 << 62)),
+        2 => (0u64..((1u64 << 62) / 0x1f - 2)).prop_map(refcodec::grease),
+    ]
+    .prop_filter("not known", |t| !matches!(*t, 0x00..=0x0d | 0x41 | 0xF0700 | 0xF0701))
+}
+
+fn tricky() -> impl Strategy<Value = Vec<u8>> {
+    prop_oneof![
+        3 => proptest::collection::vec(any::<u8>(), 0..40),
+        1 => proptest::collection::vec(any::<u8>(), 1000..3000),
+        2 => Just(refcodec::enc_frame(reg::FRAME_SETTINGS, &refcodec::enc_settings(&[(1, 0)]))),
+        2 => Just(refcodec::enc_bi_header_wt(0)),
+        1 => Just(refcodec::enc_frame(reg::FRAME_DATA, &refcodec::enc_close_capsule(1, b"fake"))),
+        1 => Just(vec![0x00]),
+    ]
+}
+
+pub fn case_strategy() -> impl Strategy<Value = Case> {
+    let control_ty = prop_oneof![
+        2 => (0u8..5).prop_map(|s| (s, 0u64)),
+        2 => unknown_generic().prop_map(|t| (9u8, t)),
+    ];
+    let unknown_stream_ty = prop_oneof![
+        2 => proptest::sample::select(vec![0x04u64, 0x05, 0x3f, 0x40, 0x53, 0x55, 0x4242, (1u64 << 62) - 1]),
+        1 => (6u64..(1u64 << 62)).prop_filter("not 0x54 / known", |t| *t != 0x54),
+        2 => (0u64..1000).prop_map(refcodec::grease),
+    ];
+    let unknown_setting = prop_oneof![
+        2 => (0u64..1000).prop_map(refcodec::grease),
+        2 => (0x09u64..(1u64 << 62)).prop_filter("unknown", |t| !matches!(*t, 0x33 | 0x2b603742 | 0xc671706a)),
+    ];
+    let ins = prop_oneof![
+        3 => (control_ty, tricky()).prop_map(|((s, t), p)| Ins::Control(s, t, p)),
+        2 => (unknown_generic(), tricky()).prop_map(|(t, p)| Ins::BeforeHeaders(t, p)),
+        3 => (unknown_generic(), tricky()).prop_map(|(t, p)| Ins::Session(t, p)),
+        2 => (prop_oneof![Just(reg::CAPSULE_DRAIN_WT_SESSION), Just(0u64), (1u64..(1u64 << 62)).prop_filter("not close", |t| *t != 0x2843)], proptest::collection::vec(any::<u8>(), 0..60)).prop_map(|(t, v)| Ins::Capsule(t, v)),
+        2 => (unknown_setting, crate::c17_ids()).prop_map(|(i, v)| Ins::Setting(i, v)),
+        3 => (unknown_stream_ty, proptest::collection::vec(any::<u8>(), 0..60), 0u8..3).prop_map(|(t, c, e)| Ins::UniStream(t, c, e)),
+    ];
+    (0u8..3, any::<bool>(), proptest::collection::vec(ins, 0..7), any::<u32>(), "[ -~]{0,30}").prop_map(|(flavor, wt_is_server, ins, code, reason)| Case { flavor, wt_is_server, ins, code, reason })
+}
+
+fn control_type(sel: u8, raw: u64) -> u64 {
+    match sel {
+        0 => reg::FRAME_GOAWAY,
+        1 => reg::FRAME_MAX_PUSH_ID,
+        2 => reg::FRAME_CANCEL_PUSH,
+        3 => reg::FRAME_PRIORITY_UPDATE_REQ,
+        4 => reg::FRAME_PRIORITY_UPDATE_PUSH,
+        _ => raw,
+    }
+}
+
+async fn exec_async(case: Arc<Case>, with_insertions: bool) -> Result<String, CaseResult> {
+    let none: Vec<Ins> = Vec::new();
+    let ins: &Vec<Ins> = if with_insertions { &case.ins } else { &none };
+    // SETTINGS with inserted identifiers (each unknown id once)
+    let mut settings = default_settings();
+    for i in ins {
+        if let Ins::Setting(id, v) = i {
+            if !settings.iter().any(|(k, _)| k == id) {
+                settings.insert(settings.len() / 2, (*id, *v));
+            }
+        }
+    }
+    let before_headers: Vec<u8> = ins.iter().filter_map(|i| if let Ins::BeforeHeaders(t, p) = i { Some(refcodec::enc_frame(*t, p)) } else { None }).flatten().collect();
+    let t = Tuning::default();
+    let app: wtransport::Connection;
+    let raw_conn: quinn::Connection;
+    let mut control: quinn::SendStream;
+    let mut req_send: quinn::SendStream;
+    let session: u64;
+    let _keep: Box<dyn std::any::Any + Send>;
+    if case.wt_is_server {
+        let server_ep = wt_server(&t);
+        let addr = server_ep.local_addr().unwrap();
+        let accept = async {
+            let incoming = server_ep.accept().await;
+            let req = incoming.await.map_err(|e| format!("incoming: {}", conn_err(&e)))?;
+            req.accept().await.map_err(|e| format!("accept: {}", conn_err(&e)))
+        };
+        let client = async {
+            let (ep, conn) = raw_connect(addr, &t).await?;
+            let control = open_control(&conn, &settings).await?;
+            let (mut rs, mut rr) = conn.open_bi().await.map_err(|e| e.to_string())?;
+            let sid = quinn::VarInt::from(rs.id()).into_inner();
+            let mut b = before_headers.clone();
+            b.extend(headers_frame(&connect_request_fields(&addr.to_string(), "/c13")));
+            rs.write_all(&b).await.map_err(|e| e.to_string())?;
+            let mut buf = Vec::new();
+            read_frame_of(&mut rr, &mut buf, &[reg::FRAME_HEADERS], Duration::from_secs(5)).await?;
+            Ok::<_, String>((ep, conn, control, rs, rr, sid))
+        };
+        let (s, c) = tokio::join!(tokio::time::timeout(Duration::from_secs(8), accept), client);
+        let (ep, conn, ctl, rs, rr, sid) = match c {
+            Ok(x) => x,
+            Err(e) => return Ok(format!("not-established: raw client: {e}")),
+        };
+        app = match s {
+            Ok(Ok(a)) => a,
+            Ok(Err(e)) => return Ok(format!("not-established: {e}")),
+            Err(_) => return Ok("not-established: timeout".into()),
+        };
+        raw_conn = conn;
+        control = ctl;
+        req_send = rs;
+        session = sid;
+        _keep = Box::new((server_ep, ep, rr));
+    } else {
+        let (raw_ep, addr) = raw_server(&t).map_err(CaseResult::Skip)?;
+        let client_ep = wt_client(&t);
+        let serve = async {
+            let mut s = raw_server_accept(&raw_ep, &settings).await?;
+            let mut b = before_headers.clone();
+            b.extend(response_frame("200", &[]));
+            s.req_send.write_all(&b).await.map_err(|e| e.to_string())?;
+            Ok::<_, String>(s)
+        };
+        let (s, c) = tokio::join!(serve, tokio::time::timeout(Duration::from_secs(8), client_ep.connect(url_for(addr, "/c13"))));
+        let s = match s {
+            Ok(s) => s,
+            Err(e) => return Ok(format!("not-established: raw server: {e}")),
+        };
+        app = match c {
+            Ok(Ok(a)) => a,
+            Ok(Err(e)) => return Ok(format!("not-established: connect: {e}")),
+            Err(_) => return Ok("not-established: timeout".into()),
+        };
+        let RawServerSession { conn, control: ctl, req_send: rs, req_recv, session_id, .. } = s;
+        raw_conn = conn;
+        control = ctl;
+        req_send = rs;
+        session = session_id;
+        _keep = Box::new((client_ep, raw_ep, req_recv));
+    }
+    // insertions after establishment
+    let mut held: Vec<Box<dyn std::any::Any + Send>> = Vec::new();
+    for i in ins {
+        match i {
+            Ins::Control(sel, raw, p) => {
+                let _ = control.write_all(&refcodec::enc_frame(control_type(*sel, *raw), p)).await;
+            }
+            Ins::Session(ty, p) => {
+                let _ = req_send.write_all(&refcodec::enc_frame(*ty, p)).await;
+            }
+            Ins::Capsule(ty, v) => {
+                let _ = req_send.write_all(&refcodec::enc_frame(reg::FRAME_DATA, &refcodec::enc_capsule(*ty, v))).await;
+            }
+            Ins::UniStream(ty, content, ending) => {
+                if let Ok(mut s) = raw_conn.open_uni().await {
+                    let mut b = refcodec::enc_varint(*ty);
+                    b.extend_from_slice(content);
+                    let _ = s.write_all(&b).await;
+                    match ending % 3 {
+                        1 => {
+                            let _ = s.finish();
+                        }
+                        2 => {
+                            let _ = s.reset(vi(7));
+                        }
+                        _ => {}
+                    }
+                    held.push(Box::new(s));
+                }
+            }
+            _ => {}
+        }
+    }
+    // an application stream still works
+    let echo = async {
+        let mut s = raw_open_wt_uni(&raw_conn, session).await?;
+        s.write_all(b"still-alive").await.map_err(|e| e.to_string())?;
+        let _ = s.finish();
+        let mut r = app.accept_uni().await.map_err(|e| format!("accept_uni: {}", conn_err(&e)))?;
+        let mut b = [0u8; 11];
+        r.read_exact(&mut b).await.map_err(|e| e.to_string())?;
+        Ok::<_, String>(b)
+    };
+    let alive = match tokio::time::timeout(Duration::from_secs(5), echo).await {
+        Ok(Ok(b)) if &b == b"still-alive" => "alive".to_string(),
+        Ok(Ok(_)) => "wrong-bytes".to_string(),
+        Ok(Err(e)) => format!("dead: {e}"),
+        Err(_) => "dead: timeout".to_string(),
+    };
+    tokio::time::sleep(Duration::from_millis(100)).await;
+    if let Some(e) = raw_conn.close_reason() {
+        return Ok(format!("closed-by-endpoint: {:?} ({alive})", close_seen(&e)));
+    }
+    // final close capsule
+    let pending = {
+        let a = app.clone();
+        tokio::spawn(async move {
+            match a.accept_bi().await {
+                Ok(_) => "Ok".to_string(),
+                Err(e) => conn_err(&e),
+            }
+        })
+    };
+    let _ = req_send.write_all(&refcodec::enc_frame(reg::FRAME_DATA, &refcodec::enc_close_capsule(case.code, case.reason.as_bytes()))).await;
+    let _ = req_send.finish();
+    let term = match tokio::time::timeout(Duration::from_secs(5), pending).await {
+        Ok(Ok(t)) => t,
+        _ => "hang".to_string(),
+    };
+    drop(held);
+    Ok(format!("{alive}; termination {term}"))
+}
+
+pub fn exec(case: &Case) -> CaseResult {
+    let c = Arc::new(case.clone());
+    let want = format!("alive; termination ApplicationClosed({},{})", case.code, vcore::hex(case.reason.as_bytes()));
+    let with = match run_on(case.flavor, Duration::from_secs(30), exec_async(c.clone(), true)) {
+        Some(Ok(o)) => o,
+        Some(Err(r)) => return r,
+        None => return CaseResult::Timeout("run with insertions did not finish in 30 s".into()),
+    };
+    if with != want {
+        // metamorphic twin: the same exchange without the insertions
+        let without = match run_on(case.flavor, Duration::from_secs(30), exec_async(c, false)) {
+            Some(Ok(o)) => o,
+            _ => return CaseResult::Skip("twin did not run".into()),
+        };
+        if without != want {
+            return CaseResult::Skip(format!("the exchange without insertions deviates as well: {without}"));
+        }
+        let kinds: Vec<&str> = case
+            .ins
+            .iter()
+            .map(|i| match i {
+                Ins::Control(..) => "control-frame",
+                Ins::BeforeHeaders(..) => "frame-before-headers",
+                Ins::Session(..) => "session-frame",
+                Ins::Capsule(..) => "capsule",
+                Ins::Setting(..) => "setting",
+                Ins::UniStream(..) => "uni-stream",
+            })
+            .collect();
+        let mut k = kinds.clone();
+        k.sort();
+        k.dedup();
+        return viol(format!("C13:e2e:{}", k.join("+")), format!("with insertions {:?} the outcome is [{with}], without them [{without}]", case.ins.iter().map(|i| format!("{i:?}").chars().take(60).collect::<String>()).collect::<Vec<_>>()));
+    }
+    let mut labels = vec![if case.wt_is_server { "role:server" } else { "role:client" }];
+    for i in &case.ins {
+        labels.push(match i {
+            Ins::Control(s, ..) if *s < 5 => "ins:control-goaway-family",
+            Ins::Control(..) => "ins:control-unknown",
+            Ins::BeforeHeaders(..) => "ins:before-headers",
+            Ins::Session(..) => "ins:session-frame",
+            Ins::Capsule(..) => "ins:unknown-capsule",
+            Ins::Setting(..) => "ins:unknown-setting",
+            Ins::UniStream(t, ..) if refcodec::is_grease(*t) => "ins:grease-uni-stream",
+            Ins::UniStream(..) => "ins:unknown-uni-stream",
+        });
+    }
+    labels.sort();
+    labels.dedup();
+    let nt = case.ins.iter().any(|i| match i {
+        Ins::Control(_, _, p) | Ins::BeforeHeaders(_, p) | Ins::Session(_, p) | Ins::Capsule(_, p) => !p.is_empty(),
+        Ins::UniStream(_, c, _) => !c.is_empty(),
+        Ins::Setting(..) => true,
+    });
+    CaseResult::Pass { nontrivial: nt, labels }
+}
+
+pub fn run(run: &Run) {
+    run.set_rule(RULE);
+    run.assume("unknown frame types inserted on request / session streams exclude every type defined by HTTP/3 (0x00-0x0d), the WT signal and PRIORITY_UPDATE; GOAWAY, MAX_PUSH_ID, CANCEL_PUSH and PRIORITY_UPDATE are inserted on the control stream only");
+    prop_search(
+        run,
+        Search { check: "insertions-e2e", cases: run.tier.pick(250, 3000), workers: 8, max_shrink_iters: 80 },
+        case_strategy,
+        |c| judge(|| exec(c), false, "C13:e2e:hang"),
+        |c| serde_json::to_value(c).unwrap(),
+    );
+    for l in ["role:server", "role:client", "ins:control-goaway-family", "ins:control-unknown", "ins:before-headers", "ins:session-frame", "ins:unknown-capsule", "ins:unknown-setting", "ins:grease-uni-stream", "ins:unknown-uni-stream"] {
+        run.essential(l);
+    }
+}
+
+pub fn replay(run: &Run, doc: &Value) -> bool {
+    if doc["check"].as_str() != Some("insertions-e2e") {
+        return false;
+    }
+    let Ok(case) = serde_json::from_value::<Case>(doc["case"].clone()) else {
+        return false;
+    };
+    run.eval("insertions-e2e", true, 1);
+    for _ in 0..3 {
+        if let Outcome::Fail { signature, message } = judge(|| exec(&case), false, "C13:e2e:hang") {
+            run.fail("insertions-e2e", &signature, &message, doc["case"].clone());
+            break;
+        }
+    }
+    true
 }
